@@ -63,6 +63,7 @@ func H_C01_rt(idx, pat, depth, variant int) {
 		verifrt.Assert(verifrt.SameBytes(b, b2), "marshal-deterministic")
 	}
 
+	otherTraffic(true) // other values are serialised while the first result is still in use
 	w := reflect.New(pt.Elem())
 	pn = verifrt.Catch(func() { err = tl.Decode(b, w.Interface()) })
 	verifrt.Assert(!pn, "decode-named-no-panic")
